@@ -34,6 +34,8 @@ def ort_run(model_proto, feeds):
     so = ort.SessionOptions()
     so.graph_optimization_level = ort.GraphOptimizationLevel.ORT_DISABLE_ALL
     so.log_severity_level = 4
+    so.intra_op_num_threads = 1
+    so.inter_op_num_threads = 1
     sess = ort.InferenceSession(model_proto.SerializeToString(), so, providers=["CPUExecutionProvider"])
     return sess.run(None, feeds)
 
